@@ -13,19 +13,25 @@ Phases == {"silent",      \* connected, has not sent a byte (PROXY header / TLS 
            "partial",     \* has sent part of what its first phase needs
            "idle",        \* completed one exchange, connection kept alive
            "inflight"}    \* request forwarded, origin answers 400 ms later
-\* when: shutdown begins before or after the listener's own limits (PROXY header / handshake time-out) cut the stalled peers
-Cases == [stacking : Stackings, clients : (SUBSET Phases) \ {{}}, when : {"before-limits", "after-limits"}]
+\* when: shutdown begins before or after the listener's own limits (PROXY header / handshake time-out) cut the stalled
+\* peers, or those limits are seconds away (the defaults): then only the shutdown itself can close the stalled peers
+Cases == [stacking : Stackings, clients : (SUBSET Phases) \ {{}}, when : {"before-limits", "after-limits", "limits-far"}]
 
-VARIABLES phase, conns, served, stage
-vars == <<phase, conns, served, stage>>
+\* mutant (the code before the fix): a connection is registered only once the listener has produced its peer address,
+\* i.e. after the PROXY header; until then Shutdown and Close do not know it
+CONSTANT LateRegistration
+VARIABLES phase, conns, tracked, served, stage
+vars == <<phase, conns, tracked, served, stage>>
 \* the run as a small machine: clients connect, shutdown begins, everything drains, Run returns
-Init == phase \in [Phases -> {"absent", "open"}] /\ conns = {p \in Phases : phase[p] = "open"} /\ served = {} /\ stage = "serving"
-Begin == stage = "serving" /\ stage' = "shutting-down" /\ UNCHANGED <<phase, conns, served>>
-\* in-flight work finishes; every other connection is closed by its own limit or by the shutdown
+Init == /\ phase \in [Phases -> {"absent", "open"}] /\ conns = {p \in Phases : phase[p] = "open"} /\ served = {} /\ stage = "serving"
+        /\ tracked = conns \ (IF LateRegistration THEN {"silent", "partial"} ELSE {})
+Begin == stage = "serving" /\ stage' = "shutting-down" /\ UNCHANGED <<phase, conns, tracked, served>>
+\* in-flight work finishes; every other connection is closed by the shutdown - or, at some time, by its own limit
 Finish(p) == /\ stage = "shutting-down" /\ p \in conns
              /\ served' = IF p = "inflight" THEN served \cup {p} ELSE served
-             /\ conns' = conns \ {p} /\ UNCHANGED <<phase, stage>>
-Return == stage = "shutting-down" /\ conns = {} /\ stage' = "returned" /\ UNCHANGED <<phase, conns, served>>
+             /\ conns' = conns \ {p} /\ tracked' = tracked \ {p} /\ UNCHANGED <<phase, stage>>
+\* Shutdown / Close only wait for and close what is registered
+Return == stage = "shutting-down" /\ tracked = {} /\ stage' = "returned" /\ UNCHANGED <<phase, conns, tracked, served>>
 Next == Begin \/ Return \/ \E p \in Phases : Finish(p)
 Spec == Init /\ [][Next]_vars /\ WF_vars(Next)
 \* when Run has returned nothing is open and the in-flight exchange was completed
